@@ -14,20 +14,22 @@ open WM.Analysis
 
 /-- filters that keep "one token per match of the tokenizer" -/
 def Filter.wordwise : Filter → Bool
-  | .lowercase | .strip | .pass | .stop _ => true
+  | .lowercase | .strip | .pass | .stop _ | .mapText _ => true
   | _ => false
 
 /-- ... and, for the statement about positions, drop stopped tokens (`removestops=True`, the
     setting used for indexing and for query-time analysis) -/
 def Filter.dropsStops : Filter → Bool
-  | .lowercase | .strip | .pass => true
+  | .lowercase | .strip | .pass | .mapText _ | .stem .. => true
   | .stop c => c.removestops
+  | .multi a b => Filter.dropsStops a && Filter.dropsStops b
   | _ => false
 
 /-- what a filter does to the text of a token it lets through -/
 def stepText (tb : Tables) : Filter → Str → Str
   | .lowercase => fun s => s.flatMap tb.lower
   | .strip => stripStr tb
+  | .mapText fn => fn
   | _ => id
 
 /-- the text transformation of a whole chain -/
@@ -83,6 +85,17 @@ theorem inv_step (tb : Tables) (mode : Mode) (text : List CChar) (g : Str → St
       simpa [stepText] using this
   | ngram a b at_ => simp [Filter.wordwise] at hf
   | biword sep => simp [Filter.wordwise] at hf
+  | mapText fn =>
+    constructor
+    · simp only [runFilter, mapText]
+      exact List.Pairwise.map _ (fun a b hab => hab) h.spans
+    · intro t ht
+      simp only [runFilter, mapText, List.mem_map] at ht
+      obtain ⟨t0, ht0, rfl⟩ := ht
+      have := h.tok t0 ht0
+      exact ⟨this.1, this.2.1, by simp [stepText, this.2.2]⟩
+  | stem fn ig => simp [Filter.wordwise] at hf
+  | multi a b => simp [Filter.wordwise] at hf
 
 theorem inv_chain (tb : Tables) (mode : Mode) (text : List CChar) (fs : List Filter)
     (hfs : ∀ f ∈ fs, Filter.wordwise f = true) (g : Str → Str) (ts : List Token) (h : Inv text g ts) :
@@ -109,13 +122,26 @@ theorem offsets (tb : Tables) (p : Pat) (fs : List Filter) (mode : Mode) (text :
 theorem pos_step (tb : Tables) (mode : Mode) (f : Filter) (hf : Filter.dropsStops f = true) (ts : List Token)
     (h : List.Pairwise (fun a b : Token => a.pos < b.pos) ts) :
     List.Pairwise (fun a b : Token => a.pos < b.pos) (runFilter tb mode f ts) := by
-  cases f with
+  induction f generalizing ts with
   | lowercase => simp only [runFilter, lowercase]; exact List.Pairwise.map _ (fun a b hab => hab) h
   | strip => simp only [runFilter, strip]; exact List.Pairwise.map _ (fun a b hab => hab) h
   | pass => exact h
   | stop c => exact (stopFilter_pos c (by simpa [Filter.dropsStops] using hf) ts none h).1
   | ngram a b at_ => simp [Filter.dropsStops] at hf
   | biword sep => simp [Filter.dropsStops] at hf
+  | mapText fn => simp only [runFilter, mapText]; exact List.Pairwise.map _ (fun a b hab => hab) h
+  | stem fn ig =>
+    simp only [runFilter, stemFilter]
+    refine List.Pairwise.map _ (fun a b hab => ?_) h
+    split <;> split <;> exact hab
+  | multi a b iha ihb =>
+    simp only [Filter.dropsStops, Bool.and_eq_true] at hf
+    cases ts with
+    | nil => simp [runFilter]
+    | cons t rest =>
+      cases mode
+      · simpa [runFilter] using iha hf.1 _ h
+      · simpa [runFilter] using ihb hf.2 _ h
 
 /-- `C17.positions`: token positions strictly increase in order of appearance, and the
     `StopFilter` (renumbering or not, with `removestops`) keeps that. -/
@@ -151,6 +177,7 @@ example :
 /-- components whose output does not depend on the `mode` -/
 def Filter.modeFree : Filter → Bool
   | .ngram .. => false
+  | .multi .. => false
   | _ => true
 
 def Tokenizer.modeFree : Tokenizer → Bool
@@ -378,5 +405,109 @@ theorem findable_postings_ngramwords (tb : Tables) (tk : Tokenizer) (pre : List 
   obtain ⟨g', hg', he⟩ := (mode_agree_ngrams min max hmin hmm).1 at_ _ g hg
   exact (findable_postings enc fmt fb bo docs d hd _ hix).2.1 [g]
     (by intro x hx; simp at hx; subst hx; exact ⟨g', hg', he⟩) g (by simp)
+
+/-! ## Round 3: a filter that really depends on the mode (`MultiFilter`) -/
+
+/-- "every text of `A` is a text of `B`" -/
+def TextsSub (A B : List Token) : Prop := ∀ a ∈ A, ∃ b ∈ B, b.text = a.text
+
+/-- filters that preserve `TextsSub`: per-token text maps, and the stop filter (its verdict depends
+    on the text alone) -/
+def Filter.textwise : Filter → Bool
+  | .lowercase | .strip | .pass | .mapText _ | .stop _ => true
+  | _ => false
+
+theorem textwise_mono (tb : Tables) (m1 m2 : Mode) (f : Filter) (hf : Filter.textwise f = true)
+    (A B : List Token) (h : TextsSub A B) : TextsSub (runFilter tb m1 f A) (runFilter tb m2 f B) := by
+  have mapcase : ∀ fn : Str → Str, TextsSub (A.map fun t => { t with text := fn t.text })
+      (B.map fun t => { t with text := fn t.text }) := by
+    intro fn a ha
+    obtain ⟨a0, ha0, rfl⟩ := List.mem_map.1 ha
+    obtain ⟨b0, hb0, he⟩ := h a0 ha0
+    exact ⟨_, List.mem_map.2 ⟨b0, hb0, rfl⟩, by simp [he]⟩
+  cases f with
+  | lowercase => exact mapcase _
+  | strip => exact mapcase _
+  | pass => exact h
+  | mapText fn => exact mapcase fn
+  | stop c =>
+    intro a ha
+    obtain ⟨y, hy, hw, hk⟩ := (stopFilter_text_iff c A none a.text).1 ⟨a, ha, rfl⟩
+    obtain ⟨b0, hb0, he⟩ := h y hy
+    exact (stopFilter_text_iff c B none a.text).2 ⟨b0, hb0, by rw [he, hw], hk⟩
+  | ngram a b at_ => simp [Filter.textwise] at hf
+  | biword sep => simp [Filter.textwise] at hf
+  | stem fn ig => simp [Filter.textwise] at hf
+  | multi a b => simp [Filter.textwise] at hf
+
+theorem analyze_append (tb : Tables) (tk : Tokenizer) (fs gs : List Filter) (mode : Mode) (text : List CChar) :
+    analyze tb tk (fs ++ gs) mode text = gs.foldl (fun ts f => runFilter tb mode f ts) (analyze tb tk fs mode text) := by
+  simp [analyze, List.foldl_append]
+
+/-- `C17.mode_agree` for an analyzer with a `MultiFilter` (the one shipped component, besides the
+    n-gram ones, whose output depends on `mode`): a mode-free chain, then
+    `MultiFilter(index=fi, query=fq)`, then text-wise filters.  If the query branch only produces
+    texts the index branch produces from the same tokens (`hbr`: what the two `IntraWordFilter`
+    settings of the documentation are meant to satisfy), every query-time token text of a text is
+    an index-time token text of it.  `runFilter` hands the *stream's* mode to the chosen branch. -/
+theorem mode_agree_multi (tb : Tables) (tk : Tokenizer) (pre post : List Filter) (fi fq : Filter)
+    (text : List CChar) (htk : Tokenizer.modeFree tk = true) (hpre : ∀ f ∈ pre, Filter.modeFree f = true)
+    (hpost : ∀ f ∈ post, Filter.textwise f = true)
+    (hbr : ∀ ts, TextsSub (runFilter tb .query fq ts) (runFilter tb .index fi ts)) :
+    TextsSub (analyze tb tk (pre ++ .multi fi fq :: post) .query text)
+             (analyze tb tk (pre ++ .multi fi fq :: post) .index text) := by
+  rw [analyze_append, analyze_append, mode_agree_chain tb tk pre text htk hpre]
+  generalize analyze tb tk pre .index text = T
+  simp only [List.foldl_cons]
+  have h0 : TextsSub (runFilter tb .query (.multi fi fq) T) (runFilter tb .index (.multi fi fq) T) := by
+    cases T with
+    | nil => intro a ha; simp [runFilter] at ha
+    | cons t rest => simpa [runFilter] using hbr (t :: rest)
+  generalize runFilter tb .query (.multi fi fq) T = A at h0
+  generalize runFilter tb .index (.multi fi fq) T = B at h0
+  induction post generalizing A B with
+  | nil => exact h0
+  | cons f fs ih =>
+    simp only [List.foldl_cons]
+    exact ih (fun f' hf' => hpost f' (by simp [hf'])) _ _
+      (textwise_mono tb .query .index f (hpost f (by simp)) A B h0)
+
+/-- `C17.findable` for such an analyzer: the term query of every query-time token matches the
+    document indexed from the same text. -/
+theorem findable_multi (tb : Tables) (tk : Tokenizer) (pre post : List Filter) (fi fq : Filter)
+    (text : List CChar) (htk : Tokenizer.modeFree tk = true) (hpre : ∀ f ∈ pre, Filter.modeFree f = true)
+    (hpost : ∀ f ∈ post, Filter.textwise f = true)
+    (hbr : ∀ ts, TextsSub (runFilter tb .query fq ts) (runFilter tb .index fi ts)) :
+    ∀ g ∈ analyze tb tk (pre ++ .multi fi fq :: post) .query text,
+      termMatches (analyze tb tk (pre ++ .multi fi fq :: post) .index text) g.text := by
+  intro g hg
+  have hsub := mode_agree_multi tb tk pre post fi fq text htk hpre hpost hbr
+  exact ((findable _).2.1 [g] (by intro x hx; rw [List.mem_singleton] at hx; rw [hx]; exact hsub g hg)) g (by simp)
+
+/-- instance of `hbr`: both branches the same `NgramFilter` (it cuts fewer grams at query time) -/
+example (tb : Tables) (min max : Nat) (hmin : 1 ≤ min) (hmm : min ≤ max) (at_ : At) :
+    ∀ ts, TextsSub (runFilter tb .query (.ngram min max at_) ts) (runFilter tb .index (.ngram min max at_) ts) :=
+  fun ts a ha => (mode_agree_ngrams min max hmin hmm).1 at_ ts a ha
+
+/-- the mode is a real parameter of the model now: `MultiFilter(index=LowercaseFilter())` (query
+    mode falls back to `PassFilter`) analyses `"Ab"` into `ab` at index time and `Ab` at query
+    time - the query-time token does not find the document; and an empty stream stays empty -/
+example :
+    let tb : Tables := { lower := fun c => if 65 ≤ c ∧ c ≤ 90 then [c + 32] else [c], space := fun c => c = 32 }
+    let ch (c : Nat) : CChar := ⟨c, (65 ≤ c ∧ c ≤ 90) ∨ (97 ≤ c ∧ c ≤ 122), c = 32, tb.lower c⟩
+    (analyze tb (.regex .default) [.multi .lowercase .pass] .index ([65, 98].map ch)).map (·.text) = [[97, 98]] ∧
+    (analyze tb (.regex .default) [.multi .lowercase .pass] .query ([65, 98].map ch)).map (·.text) = [[65, 98]] ∧
+    analyze tb (.regex .default) [.multi .lowercase .pass] .index [] = [] := by
+  decide +kernel
+
+/-- `C17.positions`/`offsets` instance for the new text filters: `"Ab cd"` through
+    `RegexTokenizer | ReverseTextFilter` (a `mapText`): offsets still delimit the source -/
+example :
+    let tb : Tables := { lower := fun c => [c], space := fun c => c = 32 }
+    let ch (c : Nat) : CChar := ⟨c, c ≠ 32, c = 32, [c]⟩
+    analyze tb (.regex .default) [.mapText List.reverse] .index ([65, 98, 32, 99, 100].map ch)
+      = [{ text := [98, 65], pos := 0, startchar := 0, endchar := 2 },
+         { text := [100, 99], pos := 1, startchar := 3, endchar := 5 }] := by
+  decide +kernel
 
 end WM.C17
